@@ -52,6 +52,49 @@ def spec_mk(x, tau, p, slope, trend):
     return None
 
 
+def series_with(n, g, S):
+    """n values, the g smallest equal, the others distinct, with Mann-Kendall score S (None when impossible)"""
+    m = n - g
+    smax = n * (n - 1) // 2 - g * (g - 1) // 2
+    if abs(S) > smax or (smax - abs(S)) % 2:
+        return None
+    k = (smax - abs(S)) // 2                       # inversions to introduce into the ascending arrangement
+    d = {}
+    for v in range(m, 0, -1):
+        d[v] = min(k, g + v - 1)
+        k -= d[v]
+    if k:
+        return None
+    out = [0] * g
+    for v in range(1, m + 1):                      # inserting v with d smaller elements to its right creates d inversions
+        out.insert(len(out) - d[v], v)
+    return out if S >= 0 else [-v for v in out]
+
+
+def boundary_series(limit):
+    crit = 1.959963984540054
+    found = []
+    for n in range(8, 200):
+        for g in (1, 2, 3, 8, 12, 14):
+            if g >= n - 2:
+                continue
+            var = (n * (n - 1) * (2 * n + 5) - (g * (g - 1) * (2 * g + 5) if g > 1 else 0)) / 18.0
+            s0 = int(crit * math.sqrt(var) + 1)
+            for S in range(max(1, s0 - 2), s0 + 3):
+                z = (S - 1) / math.sqrt(var)
+                if abs(z - crit) < 1e-4:
+                    found.append((abs(z - crit), n, g, S))
+    found.sort()
+    rows = []
+    for _, n, g, S in found:
+        a = series_with(n, g if g > 1 else 0, S)
+        if a is not None:
+            rows.append([a, [-v for v in a], a[::-1]])
+        if len(rows) >= limit:
+            break
+    return rows
+
+
 def rank_patterns(n):
     for seq in itertools.product(range(n), repeat=n):
         k = max(seq) + 1
@@ -103,6 +146,12 @@ def run(ctx):
                 q = rng.choice([-32768, -30000, 0, 30000, 32767], size=n)
             rows_q.append([int(v) for v in np.clip(q, -32768, 32767)])
         gu.append(dict(x=rows_q, q=rows_q, dtype="int16", scale=1.0, nodata=None, exhaustive=False))
+    # series constructed to sit next to the significance threshold: Z is fixed by (n, tie structure, S); for every n and a few tie-group
+    # sizes the S whose |Z| is closest to the critical value from either side is taken, the configurations within 1e-4 of it are built
+    # (ascending insertion with a prescribed number of inversions) and run with their negations
+    for rows_q in boundary_series(96 if ctx.thorough else 36):
+        gu.append(dict(x=rows_q, q=rows_q, dtype="int16", scale=1.0, nodata=None, exhaustive=False))
+        gu.append(dict(x=[[v * 0.5 for v in row] for row in rows_q], q=rows_q, dtype="float32", scale=0.5, nodata=None, exhaustive=False))
     # nodata wrapper: mixed pixels and all-nodata pixels, several nodata values incl. 0
     for nd in (-9999, 0, 255, -1):
         n = int(rng.integers(3, 30))
